@@ -193,3 +193,21 @@ PROPS["C09"] = dict(
     level_text="seeded histories with disk faults (EIO/ENOSPC on page-out, missing file / read error on page-in, ENOMEM on segment create), clients dying with handles open and clock advances past the staleness windows; reference model key -> bytes of completed writes, open readers; oracles: bytes equal, not readable before writer close, no page-out / unlink under a fresh reader, delayed purge applied at last close, client API raises only documented errors, bounded liveness probe in a drain phase",
     level_note=_LN,
 )
+
+PROPS["C18"] = dict(
+    level="exploration", budget=dict(quick=60, thorough=900),
+    groups=[
+        dict(name="fifo", harness="gateway", weight=1, runs=dict(quick=1500, thorough=40000), opts=dict(reorder=False, dup=False)),
+        dict(name="reorder", harness="gateway", weight=3, runs=dict(quick=5000, thorough=150000), opts=dict(reorder=True, dup=True)),
+    ],
+    rule="run = (1-4 jobs each with a generated sequence of progress / result / shutdown reports, 1-3 frontends with progress and result queries for known and unknown jobs and datasets, report latency window, duplication rate, forced uuid collisions, schedule); "
+         "distinct = distinct event-log digest; non-trivial = at least one report was delivered out of timestamp order or duplicated",
+    real=["cascade.gateway.server.serve / handle_fe / handle_controller", "cascade.gateway.router.JobRouter (spawn_job, maybe_update, put_result, progress_of, get_result)",
+          "cascade.gateway.client.request_response / parse_request / serialize_response", "cascade.gateway.api", "cascade.controller.report.Reporter / serialize / deserialize", "cascade.low.func.next_uuid"],
+    stub=["zmq REQ/REP/PUSH/PULL on the simulated network (reports reordered across links, duplicated, delayed; never dropped)", "subprocess.Popen (records the command line; a simulated controller sends the job's reports through one real Reporter per report)",
+          "uuid4 (collisions forced)", "clock (monotonic_ns is the virtual clock)"],
+    assumptions=["the gateway is single-threaded: the order in which its sockets' recv calls return is its linearisation order, and the model replays exactly that order",
+                 "reports are never dropped (the reporting channel is unacknowledged; the property does not promise delivery)", "malformed requests are outside the property and are not generated"],
+    level_text="seeded exploration of report histories (reorder across and within jobs, duplication, delay past the shutdown notice) interleaved with frontend queries; every response of the real gateway is compared with a sequential model (per job: progress of the report with the greatest timestamp seen so far; per (job, dataset): last uploaded bytes; unknown -> error) replayed in the gateway's own receive order; job ids pairwise distinct under forced uuid collisions",
+    level_note=_LN,
+)
